@@ -324,3 +324,73 @@ def orient(relpath: str, tree: ast.AST) -> List[Tuple[str, str, str]]:
                 c.ops = [_MIRROR[type(c.ops[0])]()]
                 done.append((q, t, m))
     return done
+
+
+# ------------------------------------------------------------------------
+# orientation of if / else
+#
+# `if not c: B else: A` is `if c: A else: B`.  An if statement with an else
+# branch whose test is not among the reference tests of its function
+# (sa/iftests.json) while the negation of the test is, is turned round
+# before analysis.
+
+IFTESTS = os.path.join(os.path.dirname(os.path.abspath(__file__)),
+                       'iftests.json')
+
+
+def _negated(t):
+    if isinstance(t, ast.UnaryOp) and isinstance(t.op, ast.Not):
+        return t.operand
+    return ast.UnaryOp(op=ast.Not(), operand=t)
+
+
+def iftests_of(tree: ast.AST) -> Dict[str, List[str]]:
+    out = {}
+    for q, fn in units(tree):
+        texts = sorted({ast.unparse(s.test) for s in ast.walk(fn)
+                        if isinstance(s, ast.If) and s.orelse})
+        if texts:
+            out[q] = texts
+    return out
+
+
+_if_cache: Optional[Dict[str, Dict[str, List[str]]]] = None
+
+
+def reference_iftests() -> Dict[str, Dict[str, List[str]]]:
+    global _if_cache
+    if _if_cache is None:
+        try:
+            with open(IFTESTS, encoding='utf-8') as f:
+                _if_cache = json.load(f)
+        except FileNotFoundError:
+            _if_cache = {}
+    return _if_cache
+
+
+def orient_ifs(relpath: str, tree: ast.AST) -> List[Tuple[str, str, str]]:
+    ref_mod = reference_iftests().get(relpath)
+    done: List[Tuple[str, str, str]] = []
+    if not ref_mod:
+        return done
+    for q, fn in units(tree):
+        ref = ref_mod.get(q)
+        if not ref:
+            continue
+        refset = set(ref)
+        for s in ast.walk(fn):
+            if not (isinstance(s, ast.If) and s.orelse):
+                continue
+            t = ast.unparse(s.test)
+            if t in refset:
+                continue
+            neg = _negated(s.test)
+            m = ast.unparse(neg)
+            if m in refset:
+                if isinstance(neg, ast.UnaryOp) and \
+                        not hasattr(neg, 'lineno'):
+                    ast.copy_location(neg, s.test)
+                s.test = neg
+                s.body, s.orelse = s.orelse, s.body
+                done.append((q, t, m))
+    return done
